@@ -1,17 +1,19 @@
-// hmm: "which module is executing" matrix for C04 / C12 / C20 (tie C: property monitor with a constructed
-// reference).
+// hmm: "which module instance is executing" matrix for C04 / C12 / C20 (tie C: property monitor with a
+// constructed reference).
 //
-// Both engines keep per-call-stack state that says which module instance is currently executing (the
+// Both engines keep per-call-stack state that says which module INSTANCE is currently executing (the
 // compiler: executionContext.callerModuleContextPtr, stored before every exit to Go; the interpreter: the
-// frame's module).  Everything that leaves native code on behalf of "the current module" depends on it:
-// module-aware host functions (api.GoModuleFunction: whose memory do they see?), ref.func, table.grow,
-// memory.grow, memory.size, function listeners.  With ONE guest module that state can never be wrong;
-// it only matters for call chains that cross guest modules and come back.
+// frame's module instance and the per-activation copies of memory/globals/tables).  Everything that leaves
+// native code on behalf of "the current instance" depends on it: module-aware host functions
+// (api.GoModuleFunction: whose memory do they see?), ref.func, table.grow, memory.grow, memory.size,
+// function listeners, tail calls that replace the frame.  With ONE guest instance that state can never be
+// wrong; it only matters for call chains that cross instances and come back.
 //
-// Three guest modules m0 <- m1 <- m2 (m_k imports the DSL functions of every lower module and the shared
-// funcref table of m0) plus the host module "env".  Every module has its own memory (marker byte 0xA0+k
-// at address 0, a log region), its own private table 1, two identity functions id0/id1 returning
-// 1000*(k+1)+i, and three straight-line DSL functions f0..f2 whose bodies are random sequences of
+// Three guest MODULES b0, b1, b2 and FOUR instances m0 (of b0), m1 and m1b (BOTH of the one compiled b1) and
+// m2 (of b2); b_k imports the DSL functions of the lower instances m0 (and m1) and the shared funcref table of
+// m0; plus the host module "env".  Every instance has its own memory (marker byte 0xA0+instance at address
+// 0, a log region), its own private table 1, two identity functions id0/id1 returning 1000*(inst+1)+i, and
+// three straight-line DSL functions f0..f2 whose bodies are random sequences of
 //
 //	peek        log(env.peek())            host function reading byte 0 of ITS CALLER's memory
 //	hgrow       log(env.hgrow())           host function growing ITS CALLER's memory by one page
@@ -20,22 +22,28 @@
 //	tgrow       log(table.grow 1 (null,1)) (private table)
 //	mgrow       log(memory.grow 1)         msize / tsize: log the sizes
 //	local j     call f_j of this module (j > own index)
-//	imp m j     call f_j of the lower module m
-//	slotfn s    call_indirect tab[4+s]     (type () -> (); slots 4..7 hold m0's f0..f2,f0)
+//	imp m j     call f_j of the lower instance m (m0 or m1)
+//	slotfn s    call_indirect tab[4+s]     (type () -> (); slots 4,5,7 hold m0's f0,f1,f0; slot 6 holds f2 of
+//	                                        m1b - an instance of the SAME compiled module as m1)
+//	slottail s  return_call_indirect tab[4+s]   (last op of a body only)
+//	trap        unreachable                hpanic: call env.boom, a host function that panics (last op only)
 //
-// All observations go to the module's own memory (plain stores), never through an extra host call, so
+// All observations go to the instance's own memory (plain stores), never through an extra host call, so
 // that observing does not refresh the state under test.  A Go reference evaluator of the DSL gives the
-// expected logs, table contents and sizes.  Every program runs on {interpreter, compiler} x listener
-// configurations {none, all functions, host functions only, guest functions only, two random subsets}:
+// expected logs, table contents, sizes and which entry calls fail.  Every program runs on {interpreter,
+// compiler} x listener configurations (which compiled modules were compiled with a listener factory at all x
+// which functions get a listener):
 //   - guest-visible observations = the reference, for every engine and listener configuration (C04: the
 //     right instance's state is used; C12: attaching listeners changes nothing);
-//   - the listener event sequence (kind, calling module, function, parameters/results) of a configuration
-//     is the same on both engines (C20).
+//   - the listener event sequence (kind, calling module, function, parameters/results; after/abort) of a
+//     configuration is the same on both engines and properly bracketed (C20) - not compared for programs with
+//     tail calls, whose events are implementation-defined.
 package main
 
 import (
 	"context"
 	"encoding/binary"
+	"errors"
 	"flag"
 	"fmt"
 	"math/rand"
@@ -50,13 +58,28 @@ import (
 )
 
 const (
-	nMods     = 3
+	nBins     = 3 // compiled modules b0, b1, b2
+	nInst     = 4 // instances m0, m1, m1b, m2
 	nFns      = 3
 	logBase   = 16
 	maxPages  = 12
 	maxTab1   = 24
 	sharedTab = 8
 )
+
+var instName = [nInst]string{"m0", "m1", "m1b", "m2"}
+var instBin = [nInst]int{0, 1, 1, 2}
+
+// importable lower instances of binary k (by instance index): b1 imports m0; b2 imports m0 and m1
+func lowerInsts(k int) []int {
+	switch k {
+	case 1:
+		return []int{0}
+	case 2:
+		return []int{0, 1}
+	}
+	return nil
+}
 
 type Op struct {
 	K string `json:"k"`
@@ -65,19 +88,40 @@ type Op struct {
 }
 
 type Program struct {
-	ID    int            `json:"id"`
-	Fns   [nMods][][]Op  `json:"fns"`   // [module][fn] -> ops
-	Calls [][2]int       `json:"calls"` // entry calls (module, fn)
-	Note  string         `json:"note,omitempty"`
-	_     map[string]any // keep vet quiet about unkeyed fields
+	ID    int           `json:"id"`
+	Fns   [nBins][][]Op `json:"fns"`   // [compiled module][fn] -> ops
+	Calls [][2]int      `json:"calls"` // entry calls (instance, fn)
+	Note  string        `json:"note,omitempty"`
+}
+
+func (p *Program) has(kind string) bool {
+	for _, fs := range p.Fns {
+		for _, f := range fs {
+			for _, o := range f {
+				if o.K == kind {
+					return true
+				}
+			}
+		}
+	}
+	return false
 }
 
 // ---- generation ---------------------------------------------------------------------------------------
 
 func genOps(r *rand.Rand, k, f, n int) []Op {
 	var ops []Op
+	slot := func() int {
+		// slot 6 (s = 2) holds m1b.f2: f2 of b1 itself must not reach it (same code: endless recursion)
+		for {
+			s := r.Intn(4)
+			if !(k == 1 && f == 2 && s == 2) {
+				return s
+			}
+		}
+	}
 	for i := 0; i < n; i++ {
-		switch x := r.Intn(20); {
+		switch x := r.Intn(22); {
 		case x < 4:
 			ops = append(ops, Op{K: "peek"})
 		case x < 5:
@@ -99,43 +143,56 @@ func genOps(r *rand.Rand, k, f, n int) []Op {
 				ops = append(ops, Op{K: "peek"})
 			}
 		case x < 19:
-			if k > 0 {
-				ops = append(ops, Op{K: "imp", A: r.Intn(k), B: r.Intn(nFns)})
+			if ls := lowerInsts(k); len(ls) > 0 {
+				ops = append(ops, Op{K: "imp", A: ls[r.Intn(len(ls))], B: r.Intn(nFns)})
 			} else {
 				ops = append(ops, Op{K: "tgrow"})
 			}
 		default:
 			if k > 0 {
-				ops = append(ops, Op{K: "slotfn", A: r.Intn(4)})
+				ops = append(ops, Op{K: "slotfn", A: slot()})
 			} else {
 				ops = append(ops, Op{K: "msize"})
 			}
 		}
+	}
+	// a terminating op: a tail call through the shared table, or a failure
+	if k > 0 {
+		switch r.Intn(12) {
+		case 0, 1:
+			ops = append(ops, Op{K: "slottail", A: slot()})
+		case 2:
+			ops = append(ops, Op{K: "trap"})
+		case 3:
+			ops = append(ops, Op{K: "hpanic"})
+		}
+	} else if r.Intn(12) == 0 {
+		ops = append(ops, Op{K: []string{"trap", "hpanic"}[r.Intn(2)]})
 	}
 	return ops
 }
 
 func genProgram(r *rand.Rand, id int) Program {
 	p := Program{ID: id}
-	for k := 0; k < nMods; k++ {
+	for k := 0; k < nBins; k++ {
 		for f := 0; f < nFns; f++ {
 			p.Fns[k] = append(p.Fns[k], genOps(r, k, f, 2+r.Intn(6)))
 		}
 	}
 	n := 4 + r.Intn(8)
 	for i := 0; i < n; i++ {
-		k := r.Intn(nMods)
+		k := r.Intn(nInst)
 		if r.Intn(3) > 0 {
-			k = 1 + r.Intn(nMods-1) // mostly the modules whose calls cross module boundaries
+			k = 1 + r.Intn(nInst-1) // mostly the instances whose calls cross instance boundaries
 		}
 		p.Calls = append(p.Calls, [2]int{k, r.Intn(nFns)})
 	}
 	return p
 }
 
-// corpus: the shapes behind the seeded changes C04-2, C12-2, C20-2 (kept as regression inputs)
+// corpus: the shapes behind seeded changes (kept as regression inputs)
 func corpus() []Program {
-	mk := func(id int, note string, fns [nMods][][]Op, calls [][2]int) Program {
+	mk := func(id int, note string, fns [nBins][][]Op, calls [][2]int) Program {
 		for k := range fns {
 			for len(fns[k]) < nFns {
 				fns[k] = append(fns[k], nil)
@@ -144,55 +201,62 @@ func corpus() []Program {
 		return Program{ID: id, Fns: fns, Calls: calls, Note: note}
 	}
 	return []Program{
-		mk(1, "ref.func; local helper that calls another module which does ref.func; ref.func", [nMods][][]Op{
+		mk(1, "ref.func; local helper that calls another module which does ref.func; ref.func", [nBins][][]Op{
 			{{{K: "reffunc", A: 1, B: 3}, {K: "tgrow"}}},
 			{{{K: "reffunc", A: 0, B: 0}, {K: "local", A: 1}, {K: "reffunc", A: 1, B: 1}, {K: "tgrow"}, {K: "local", A: 1}, {K: "tgrow"}, {K: "callid", A: 0}, {K: "callid", A: 1}}, {{K: "imp", A: 0, B: 0}}},
 			{}}, [][2]int{{1, 0}, {1, 0}}),
-		mk(2, "host function reached through a chain main -> lib", [nMods][][]Op{
+		mk(2, "host function reached through a chain main -> lib", [nBins][][]Op{
 			{{{K: "peek"}, {K: "hgrow"}}},
 			{{{K: "imp", A: 0, B: 0}, {K: "peek"}}},
-			{{{K: "imp", A: 1, B: 0}, {K: "peek"}, {K: "imp", A: 0, B: 0}, {K: "peek"}, {K: "hgrow"}}}}, [][2]int{{2, 0}, {1, 0}}),
-		mk(3, "call into another module, then a host call from the same function", [nMods][][]Op{
+			{{{K: "imp", A: 1, B: 0}, {K: "peek"}, {K: "imp", A: 0, B: 0}, {K: "peek"}, {K: "hgrow"}}}}, [][2]int{{3, 0}, {1, 0}}),
+		mk(3, "call into another module, then a host call from the same function", [nBins][][]Op{
 			{{{K: "msize"}}, {{K: "mgrow"}}, {{K: "peek"}}},
 			{{{K: "imp", A: 0, B: 0}, {K: "peek"}, {K: "imp", A: 0, B: 1}, {K: "peek"}, {K: "imp", A: 0, B: 2}, {K: "peek"}, {K: "hgrow"}}},
 			{}}, [][2]int{{1, 0}}),
+		mk(4, "tail call through the shared table into ANOTHER INSTANCE of the same compiled module", [nBins][][]Op{
+			{{{K: "peek"}}},
+			{{{K: "peek"}, {K: "mgrow"}, {K: "slottail", A: 2}}, {{K: "tgrow"}, {K: "slotfn", A: 2}, {K: "peek"}}, {{K: "peek"}, {K: "mgrow"}, {K: "tgrow"}, {K: "msize"}}},
+			{{{K: "slottail", A: 2}}}}, [][2]int{{1, 0}, {1, 1}, {2, 0}, {3, 0}}),
+		mk(5, "a trap / host panic two instances deep, entry module without listeners", [nBins][][]Op{
+			{{{K: "peek"}, {K: "trap"}}, {{K: "peek"}, {K: "hpanic"}}},
+			{{{K: "tgrow"}, {K: "imp", A: 0, B: 0}}, {{K: "imp", A: 0, B: 1}}},
+			{{{K: "peek"}, {K: "imp", A: 1, B: 0}}, {{K: "imp", A: 1, B: 1}}, {{K: "peek"}}}}, [][2]int{{3, 0}, {3, 1}, {3, 2}, {1, 0}}),
 	}
 }
 
 // ---- reference evaluator --------------------------------------------------------------------------------
 
-type refMod struct {
+type refInst struct {
 	pages, tab1 int
 	log         []int32
 }
 
 type refState struct {
-	m     [nMods]refMod
-	slots [sharedTab][2]int // (module, fn kind index): slots 0..3 id functions (module, i); 4..7 DSL (0, f)
-	depth int
+	m     [nInst]refInst
+	slots [sharedTab][2]int // (instance, fn): slots 0..3 id functions; 4..7 DSL functions
 }
 
 func newRef() *refState {
 	s := &refState{}
 	for k := range s.m {
-		s.m[k] = refMod{pages: 1, tab1: 1}
+		s.m[k] = refInst{pages: 1, tab1: 1}
 	}
 	for i := 0; i < 4; i++ {
 		s.slots[i] = [2]int{0, i % 2}
 	}
-	for i := 0; i < 4; i++ {
-		s.slots[4+i] = [2]int{0, i % nFns}
-	}
+	s.slots[4], s.slots[5], s.slots[7] = [2]int{0, 0}, [2]int{0, 1}, [2]int{0, 0}
+	s.slots[6] = [2]int{2, 2} // m1b.f2 (the element segment of b1 is applied by m1 and then by m1b)
 	return s
 }
 
-func (s *refState) run(p *Program, k, f int) {
-	for _, o := range p.Fns[k][f] {
-		m := &s.m[k]
+// run executes f of instance i; the result is "" or the failure class that unwinds everything
+func (s *refState) run(p *Program, i, f int) string {
+	for _, o := range p.Fns[instBin[i]][f] {
+		m := &s.m[i]
 		lg := func(v int) { m.log = append(m.log, int32(v)) }
 		switch o.K {
 		case "peek":
-			lg(0xA0 + k)
+			lg(0xA0 + i)
 		case "hgrow", "mgrow":
 			if m.pages+1 <= maxPages {
 				lg(m.pages)
@@ -201,7 +265,7 @@ func (s *refState) run(p *Program, k, f int) {
 				lg(-1)
 			}
 		case "reffunc":
-			s.slots[o.B] = [2]int{k, o.A}
+			s.slots[o.B] = [2]int{i, o.A}
 		case "callid":
 			t := s.slots[o.A]
 			lg(1000*(t[0]+1) + t[1])
@@ -217,14 +281,28 @@ func (s *refState) run(p *Program, k, f int) {
 		case "tsize":
 			lg(m.tab1)
 		case "local":
-			s.run(p, k, o.A)
+			if e := s.run(p, i, o.A); e != "" {
+				return e
+			}
 		case "imp":
-			s.run(p, o.A, o.B)
+			if e := s.run(p, o.A, o.B); e != "" {
+				return e
+			}
 		case "slotfn":
 			t := s.slots[4+o.A]
-			s.run(p, t[0], t[1])
+			if e := s.run(p, t[0], t[1]); e != "" {
+				return e
+			}
+		case "slottail":
+			t := s.slots[4+o.A]
+			return s.run(p, t[0], t[1])
+		case "trap":
+			return "trap"
+		case "hpanic":
+			return "panic"
 		}
 	}
+	return ""
 }
 
 // ---- module construction --------------------------------------------------------------------------------
@@ -238,10 +316,11 @@ func buildModule(p *Program, k int) []byte {
 	m.TypeIdx([]byte{wb.I32}, []byte{wb.I32})
 	peek := m.ImportFunc("env", "peek", nil, []byte{wb.I32})
 	hgrow := m.ImportFunc("env", "hgrow", nil, []byte{wb.I32})
+	boom := m.ImportFunc("env", "boom", nil, nil)
 	imp := map[[2]int]uint32{}
-	for j := 0; j < k; j++ {
+	for _, j := range lowerInsts(k) {
 		for f := 0; f < nFns; f++ {
-			imp[[2]int{j, f}] = m.ImportFunc(fmt.Sprintf("m%d", j), fmt.Sprintf("f%d", f), nil, nil)
+			imp[[2]int{j, f}] = m.ImportFunc(instName[j], fmt.Sprintf("f%d", f), nil, nil)
 		}
 	}
 	base := m.M.ImportFunctionCount
@@ -257,7 +336,6 @@ func buildModule(p *Program, k int) []byte {
 	}
 	m.Table(1, u32p(maxTab1)) // table 1: private
 	m.Memory(1, u32p(maxPages), false, "memory")
-	m.Data(false, 0, []byte{byte(0xA0 + k)})
 	m.Global(32, logBase) // log cursor
 	logTop := func() []byte {
 		// value on the stack -> log
@@ -265,7 +343,9 @@ func buildModule(p *Program, k int) []byte {
 			wb.GlobalGet(0), wb.I32Const(4), wb.Op(wasm.OpcodeI32Add), wb.GlobalSet(0))
 	}
 	for i := 0; i < 2; i++ {
-		m.AddFunc(wb.Func{Results: []byte{wb.I32}, Body: wb.I32Const(int32(1000*(k+1) + i))})
+		// id_i returns 1000*(instance+1)+i: the instance number is the marker byte at address 0 minus 0xA0
+		m.AddFunc(wb.Func{Results: []byte{wb.I32}, Body: wb.Cat(wb.I32Const(0), wb.MemArg(wasm.OpcodeI32Load8U, 0, 0), wb.I32Const(0xA0-1), wb.Op(wasm.OpcodeI32Sub),
+			wb.I32Const(1000), wb.Op(wasm.OpcodeI32Mul), wb.I32Const(int32(i)), wb.Op(wasm.OpcodeI32Add))})
 	}
 	for f := 0; f < nFns; f++ {
 		var b []byte
@@ -293,6 +373,12 @@ func buildModule(p *Program, k int) []byte {
 				b = append(b, wb.Call(imp[[2]int{o.A, o.B}])...)
 			case "slotfn":
 				b = append(b, wb.Cat(wb.I32Const(int32(4+o.A)), []byte{wasm.OpcodeCallIndirect}, wb.U32(t0), []byte{0})...)
+			case "slottail":
+				b = append(b, wb.Cat(wb.I32Const(int32(4+o.A)), []byte{wasm.OpcodeTailCallReturnCallIndirect}, wb.U32(t0), []byte{0})...)
+			case "trap":
+				b = append(b, wasm.OpcodeUnreachable)
+			case "hpanic":
+				b = append(b, wb.Call(boom)...)
 			default:
 				hx.Fatal("bad op %q", o.K)
 			}
@@ -305,10 +391,14 @@ func buildModule(p *Program, k int) []byte {
 	m.AddFunc(wb.Func{Results: []byte{wb.I32}, Export: "msize", Body: wb.MemorySize()})
 	m.AddFunc(wb.Func{Results: []byte{wb.I32}, Export: "cur", Body: wb.GlobalGet(0)})
 	var elems []wb.Elem
-	if k == 0 {
+	switch k {
+	case 0:
 		elems = append(elems, wb.Elem{Offset: 0, Init: []int64{int64(idFn(0)), int64(idFn(1)), int64(idFn(0)), int64(idFn(1)),
 			int64(dslFn(0)), int64(dslFn(1)), int64(dslFn(2)), int64(dslFn(0))}})
-	} else {
+	case 1:
+		// slot 6 := f2 of this instance (m1, then overwritten by m1b), which also declares id0/id1 for ref.func
+		elems = append(elems, wb.Elem{Offset: 6, Init: []int64{int64(dslFn(2))}}, wb.Elem{Passive: true, Init: []int64{int64(idFn(0)), int64(idFn(1))}})
+	default:
 		elems = append(elems, wb.Elem{Passive: true, Init: []int64{int64(idFn(0)), int64(idFn(1))}}) // declares the functions for ref.func
 	}
 	return m.BytesWithSegments(elems)
@@ -316,15 +406,27 @@ func buildModule(p *Program, k int) []byte {
 
 // ---- execution ------------------------------------------------------------------------------------------
 
+// listenerCfg: which compiled modules (index nBins = the host module) are compiled with a listener factory in
+// the context at all, and which functions the factory gives a listener to.
 type listenerCfg struct {
-	name string
-	pick func(def api.FunctionDefinition) bool // nil = no listener at all
+	name    string
+	factory [nBins + 1]bool
+	pick    func(def api.FunctionDefinition) bool
+}
+
+func (lc *listenerCfg) any() bool {
+	for _, b := range lc.factory {
+		if b {
+			return true
+		}
+	}
+	return false
 }
 
 type recorder struct {
-	pick       func(def api.FunctionDefinition) bool
-	events     []string
-	longSlices int
+	pick   func(def api.FunctionDefinition) bool
+	events []string
+	off    bool
 }
 
 func (rc *recorder) NewFunctionListener(def api.FunctionDefinition) experimental.FunctionListener {
@@ -337,16 +439,20 @@ func (rc *recorder) NewFunctionListener(def api.FunctionDefinition) experimental
 func fname(def api.FunctionDefinition) string { return fmt.Sprintf("%s#%d", def.ModuleName(), def.Index()) }
 
 func (rc *recorder) Before(_ context.Context, mod api.Module, def api.FunctionDefinition, params []uint64, _ experimental.StackIterator) {
+	if rc.off {
+		return
+	}
 	if n := len(def.ParamTypes()); len(params) > n {
-		rc.longSlices++ // known finding F27 (compiler hands the whole go-call stack view to host function listeners)
-		params = params[:n]
+		params = params[:n] // known finding F27 (compiler hands the whole go-call stack view to host function listeners)
 	}
 	rc.events = append(rc.events, fmt.Sprintf("B %s in=%s %v", fname(def), mod.Name(), params))
 }
 
 func (rc *recorder) After(_ context.Context, mod api.Module, def api.FunctionDefinition, results []uint64) {
+	if rc.off {
+		return
+	}
 	if n := len(def.ResultTypes()); len(results) > n {
-		rc.longSlices++
 		results = results[:n]
 	}
 	results = append([]uint64{}, results...)
@@ -357,32 +463,49 @@ func (rc *recorder) After(_ context.Context, mod api.Module, def api.FunctionDef
 }
 
 func (rc *recorder) Abort(_ context.Context, mod api.Module, def api.FunctionDefinition, err error) {
-	rc.events = append(rc.events, fmt.Sprintf("X %s in=%s %s", fname(def), mod.Name(), firstLine(err.Error())))
+	if rc.off {
+		return
+	}
+	rc.events = append(rc.events, fmt.Sprintf("X %s in=%s %s", fname(def), mod.Name(), errClass(err)))
 }
 
 func firstLine(s string) string { return strings.SplitN(s, "\n", 2)[0] }
 
+var errBoom = errors.New("boom: host function failed")
+
+func errClass(err error) string {
+	s := err.Error()
+	switch {
+	case strings.Contains(s, "unreachable"):
+		return "trap"
+	case strings.Contains(s, "boom"):
+		return "panic"
+	}
+	return "other:" + firstLine(s)
+}
+
 type observation struct {
-	Errs   []string           `json:"errs"`
-	Logs   [nMods][]int32     `json:"logs"`
-	Slots  [nMods][4]string   `json:"slots"`
-	TSize  [nMods]int         `json:"tsize"`
-	MSize  [nMods]int         `json:"msize"`
-	APISz  [nMods]uint32      `json:"api_size"`
-	Events []string           `json:"-"`
-	_      map[string]struct{} // unkeyed-literal guard
+	Errs   []string         `json:"errs"`
+	Logs   [nInst][]int32   `json:"logs"`
+	Slots  [nInst][4]string `json:"slots"`
+	TSize  [nInst]int       `json:"tsize"`
+	MSize  [nInst]int       `json:"msize"`
+	APISz  [nInst]uint32    `json:"api_size"`
+	Events []string         `json:"-"`
 }
 
 func (o *observation) guest() string {
 	return fmt.Sprintf("errs=%v logs=%v slots=%v tsize=%v msize=%v api=%v", o.Errs, o.Logs, o.Slots, o.TSize, o.MSize, o.APISz)
 }
 
-func runProgram(p *Program, bins [nMods][]byte, engine string, lc listenerCfg) (obs observation) {
-	ctx := context.Background()
-	var rc *recorder
-	if lc.pick != nil {
-		rc = &recorder{pick: lc.pick}
-		ctx = experimental.WithFunctionListenerFactory(ctx, rc)
+func runProgram(p *Program, bins [nBins][]byte, engine string, lc listenerCfg) (obs observation) {
+	bg := context.Background()
+	rc := &recorder{pick: lc.pick}
+	ctxFor := func(b int) context.Context {
+		if lc.pick != nil && lc.factory[b] {
+			return experimental.WithFunctionListenerFactory(bg, rc)
+		}
+		return bg
 	}
 	var cfg wazero.RuntimeConfig
 	if engine == "compiler" {
@@ -390,8 +513,8 @@ func runProgram(p *Program, bins [nMods][]byte, engine string, lc listenerCfg) (
 	} else {
 		cfg = wazero.NewRuntimeConfigInterpreter()
 	}
-	rt := wazero.NewRuntimeWithConfig(ctx, cfg.WithCoreFeatures(api.CoreFeaturesV2))
-	defer rt.Close(ctx)
+	rt := wazero.NewRuntimeWithConfig(bg, cfg.WithCoreFeatures(api.CoreFeaturesV2|experimental.CoreFeaturesTailCall))
+	defer rt.Close(bg)
 	_, err := rt.NewHostModuleBuilder("env").
 		NewFunctionBuilder().WithGoModuleFunction(api.GoModuleFunc(func(_ context.Context, mod api.Module, stack []uint64) {
 		b, ok := mod.Memory().ReadByte(0)
@@ -406,37 +529,46 @@ func runProgram(p *Program, bins [nMods][]byte, engine string, lc listenerCfg) (
 			prev = 0xffffffff
 		}
 		stack[0] = uint64(prev)
-	}), nil, []api.ValueType{api.ValueTypeI32}).Export("hgrow").Instantiate(ctx)
+	}), nil, []api.ValueType{api.ValueTypeI32}).Export("hgrow").
+		NewFunctionBuilder().WithGoModuleFunction(api.GoModuleFunc(func(context.Context, api.Module, []uint64) { panic(errBoom) }), nil, nil).Export("boom").
+		Instantiate(ctxFor(nBins))
 	if err != nil {
 		hx.Fatal("env: %v", err)
 	}
-	var mods [nMods]api.Module
-	for k := 0; k < nMods; k++ {
-		mods[k], err = rt.InstantiateWithConfig(ctx, bins[k], wazero.NewModuleConfig().WithName(fmt.Sprintf("m%d", k)))
+	var compiled [nBins]wazero.CompiledModule
+	for b := 0; b < nBins; b++ {
+		compiled[b], err = rt.CompileModule(ctxFor(b), bins[b])
 		if err != nil {
-			hx.Fatal("generator bug: module m%d of program %d does not instantiate on %s: %v", k, p.ID, engine, err)
+			hx.Fatal("generator bug: module b%d of program %d does not compile on %s: %v", b, p.ID, engine, err)
 		}
 	}
-	for _, c := range p.Calls {
-		_, err := mods[c[0]].ExportedFunction(fmt.Sprintf("f%d", c[1])).Call(ctx)
+	var mods [nInst]api.Module
+	for i := 0; i < nInst; i++ {
+		mods[i], err = rt.InstantiateModule(ctxFor(instBin[i]), compiled[instBin[i]], wazero.NewModuleConfig().WithName(instName[i]))
 		if err != nil {
-			obs.Errs = append(obs.Errs, fmt.Sprintf("m%d.f%d: %s", c[0], c[1], firstLine(err.Error())))
+			hx.Fatal("generator bug: instance %s of program %d does not instantiate on %s: %v", instName[i], p.ID, engine, err)
+		}
+		// the marker: byte 0 of the instance's own memory
+		mods[i].Memory().WriteByte(0, byte(0xA0+i))
+	}
+	for _, c := range p.Calls {
+		_, err := mods[c[0]].ExportedFunction(fmt.Sprintf("f%d", c[1])).Call(bg)
+		if err != nil {
+			obs.Errs = append(obs.Errs, errClass(err))
 		} else {
 			obs.Errs = append(obs.Errs, "")
 		}
 	}
-	if rc != nil {
-		obs.Events = append([]string{}, rc.events...)
-		rc.pick = func(api.FunctionDefinition) bool { return false }
-	}
+	obs.Events = append([]string{}, rc.events...)
+	rc.off = true
 	call := func(k int, fn string, args ...uint64) string {
-		res, err := mods[k].ExportedFunction(fn).Call(ctx, args...)
+		res, err := mods[k].ExportedFunction(fn).Call(bg, args...)
 		if err != nil {
 			return "error:" + firstLine(err.Error())
 		}
 		return fmt.Sprint(int32(uint32(res[0])))
 	}
-	for k := 0; k < nMods; k++ {
+	for k := 0; k < nInst; k++ {
 		var cur int
 		fmt.Sscan(call(k, "cur"), &cur)
 		if cur >= logBase {
@@ -460,10 +592,9 @@ func expected(p *Program) observation {
 	s := newRef()
 	var o observation
 	for _, c := range p.Calls {
-		s.run(p, c[0], c[1])
-		o.Errs = append(o.Errs, "")
+		o.Errs = append(o.Errs, s.run(p, c[0], c[1]))
 	}
-	for k := 0; k < nMods; k++ {
+	for k := 0; k < nInst; k++ {
 		o.Logs[k] = s.m[k].log
 		for i := 0; i < 4; i++ {
 			t := s.slots[i]
@@ -474,10 +605,12 @@ func expected(p *Program) observation {
 	return o
 }
 
+var noCorpus = flag.Bool("nocorpus", false, "skip the regression corpus (to measure what the random programs find)")
+
 var prop = flag.String("prop", "C04", "property on whose behalf the matrix runs: only violations of that property are reported")
 
-// report: the matrix decides three properties; a run on behalf of one of them reports that one's violations only
-// (signatures C04:… / C12:… / C20:… and F…: known findings of C20).
+// filtered: the matrix decides three properties; a run on behalf of one of them reports that one's violations
+// only (signatures C04:… / C12:… / C20:… and F…: known findings of C20).
 type filtered struct{ *hx.Report }
 
 func (f filtered) Violate(v hx.Violation) {
@@ -492,9 +625,12 @@ func (f filtered) Violate(v hx.Violation) {
 func main() {
 	flag.Parse()
 	orc := hx.StartOracle()
-	rep := filtered{hx.NewReport(*prop, "programs = random straight-line bodies for 3 functions in each of 3 linked guest modules over the ops {module-aware host calls, ref.func into a shared table, call_indirect, table.grow, memory.grow, sizes, local / imported / indirect calls} + entry-call sequences; each x {interpreter, compiler} x 6 listener configurations; distinct = distinct (program, engine, listener configuration)")}
+	rep := filtered{hx.NewReport(*prop, "programs = random straight-line bodies for 3 functions in each of 3 guest modules (4 instances, two of the same compiled module) over the ops {module-aware host calls, ref.func into a shared table, call_indirect, return_call_indirect, table.grow, memory.grow, sizes, local / imported / indirect calls, traps, host panics} + entry-call sequences; each x {interpreter, compiler} x listener configurations (which modules have a factory x which functions a listener); distinct = distinct (program, engine, listener configuration)")}
 	r := hx.Rand()
 	progs := corpus()
+	if *noCorpus {
+		progs = nil
+	}
 	n := 60
 	if hx.Thorough() {
 		n = 1500
@@ -509,34 +645,49 @@ func main() {
 		}
 		return h>>7&1 == 0
 	}
+	all := [nBins + 1]bool{true, true, true, true}
 	for pi := range progs {
 		p := &progs[pi]
 		salt := uint32(r.Int63())
-		cfgs := []listenerCfg{
-			{"none", nil},
-			{"all", func(api.FunctionDefinition) bool { return true }},
-			{"host-only", func(d api.FunctionDefinition) bool { return d.ModuleName() == "env" }},
-			{"guest-only", func(d api.FunctionDefinition) bool { return d.ModuleName() != "env" }},
-			{"subset-a", func(d api.FunctionDefinition) bool { return hash(d, salt) }},
-			{"subset-b", func(d api.FunctionDefinition) bool { return !hash(d, salt) }},
+		var mask [nBins + 1]bool
+		for i := range mask {
+			mask[i] = r.Intn(2) == 0
 		}
-		var bins [nMods][]byte
+		everything := func(api.FunctionDefinition) bool { return true }
+		cfgs := []listenerCfg{
+			{"none", [nBins + 1]bool{}, nil},
+			{"all", all, everything},
+			{"host-only", all, func(d api.FunctionDefinition) bool { return d.ModuleName() == "env" }},
+			{"guest-only", all, func(d api.FunctionDefinition) bool { return d.ModuleName() != "env" }},
+			{"subset-a", all, func(d api.FunctionDefinition) bool { return hash(d, salt) }},
+			{"subset-b", all, func(d api.FunctionDefinition) bool { return !hash(d, salt) }},
+			// factories present only for some compiled modules (the others were compiled without any listener support)
+			{"entry-module-b2-without-factory", [nBins + 1]bool{true, true, false, true}, everything},
+			{"only-library-b0-and-host", [nBins + 1]bool{true, false, false, true}, everything},
+			{fmt.Sprintf("factory-mask-%v", mask), mask, everything},
+		}
+		var bins [nBins][]byte
 		for k := range bins {
 			bins[k] = buildModule(p, k)
 		}
 		want := expected(p)
-		for _, lc := range cfgs {
+		tails := p.has("slottail")
+		for ci := range cfgs {
+			lc := cfgs[ci]
+			if lc.pick != nil && !lc.any() {
+				continue
+			}
 			var ev [2][]string
 			for ei, engine := range []string{"interpreter", "compiler"} {
 				got := runProgram(p, bins, engine, lc)
 				ev[ei] = got.Events
 				rep.Case(fmt.Sprintf("%d/%s/%s", p.ID, engine, lc.name))
 				if got.guest() != want.guest() {
-					sig := "C04:wrong-module-state:" + engine
+					sig := "C04:wrong-instance-state:" + engine
 					if lc.pick != nil {
 						sig = "C12:listener-changes-guest-behaviour:" + engine
 						if none := runProgram(p, bins, engine, cfgs[0]); none.guest() != want.guest() {
-							sig = "C04:wrong-module-state:" + engine
+							sig = "C04:wrong-instance-state:" + engine
 						}
 					}
 					rep.Violate(hx.Violation{Kind: "impl-violation", Signature: sig,
@@ -544,7 +695,7 @@ func main() {
 						Input: map[string]any{"program": p, "engine": engine, "listeners": lc.name}, Expected: want.guest(), Actual: got.guest()})
 				}
 			}
-			if lc.pick != nil {
+			if lc.pick != nil && !tails {
 				// the module handed to the listener of a GUEST function differs between the engines for calls
 				// that cross modules (known finding F28): compared separately
 				full := [2][]string{ev[0], ev[1]}
@@ -576,20 +727,44 @@ func main() {
 						What:  fmt.Sprintf("program %d with listeners=%s: event %d is %q on the interpreter and %q on the compiler", p.ID, lc.name, i, at(ev[0]), at(ev[1])),
 						Input: map[string]any{"program": p, "listeners": lc.name}, Expected: at(ev[0]), Actual: at(ev[1])})
 				}
-				rep.Count(fmt.Sprintf("events:%s:%s", lc.name, bucket(len(ev[0]))))
-			}
-		}
-		cross := 0
-		for k := 1; k < nMods; k++ {
-			for _, f := range p.Fns[k] {
-				for _, o := range f {
-					if o.K == "imp" || o.K == "slotfn" {
-						cross++
+				// bracketing on each engine: every before has its after/abort, properly nested
+				for e, engine := range []string{"interpreter", "compiler"} {
+					var st []string
+					bad := ""
+					for _, x := range full[e] {
+						f := strings.Fields(x)
+						switch f[0] {
+						case "B":
+							st = append(st, f[1])
+						default:
+							if len(st) == 0 || st[len(st)-1] != f[1] {
+								bad = "unmatched " + x
+							} else {
+								st = st[:len(st)-1]
+							}
+						}
+					}
+					if bad == "" && len(st) > 0 {
+						bad = fmt.Sprintf("%d before-event(s) without after/abort: %v", len(st), st)
+					}
+					if bad != "" {
+						rep.Violate(hx.Violation{Kind: "impl-violation", Signature: "C20:listener-events-not-bracketed:" + engine,
+							What: fmt.Sprintf("program %d with listeners=%s on %s: %s", p.ID, lc.name, engine, bad), Input: map[string]any{"program": p, "listeners": lc.name}})
 					}
 				}
+				rep.Count(fmt.Sprintf("events:%s", bucket(len(ev[0]))))
 			}
 		}
-		rep.Count("cross-module-call-sites:" + bucket(cross))
+		fails := 0
+		for _, e := range want.Errs {
+			if e != "" {
+				fails++
+			}
+		}
+		rep.Count("failing-entry-calls:" + bucket(fails))
+		if tails {
+			rep.Count("programs-with-tail-calls")
+		}
 	}
 	rep.Sample(map[string]any{"program": progs[0]})
 	rep.Write(orc)
